@@ -38,6 +38,7 @@ pub enum Plan {
     RkyvImage,
     RkyvBitflip { bit: usize },
     RkyvTrunc { n: usize },
+    RkyvNested,
     Mint,
 }
 
@@ -62,6 +63,7 @@ impl Plan {
             Plan::RkyvImage => ("RkyvImage", 0, 0),
             Plan::RkyvBitflip { bit } => ("RkyvBitflip", *bit, 0),
             Plan::RkyvTrunc { n } => ("RkyvTrunc", *n, 0),
+            Plan::RkyvNested => ("RkyvNested", 0, 0),
             Plan::Mint => ("Mint", 0, 0),
         };
         json!({"kind": k, "a": a, "b": b})
@@ -88,6 +90,7 @@ impl Plan {
             "RkyvImage" => Plan::RkyvImage,
             "RkyvBitflip" => Plan::RkyvBitflip { bit: a },
             "RkyvTrunc" => Plan::RkyvTrunc { n: a },
+            "RkyvNested" => Plan::RkyvNested,
             "Mint" => Plan::Mint,
             k => panic!("replay: unknown plan {k}"),
         }
@@ -827,6 +830,39 @@ where
                 Err(e) => out.fail(format!("rkyv-error:{name}"), format!("access rejected a flipped archive (all bit patterns are valid): {e}")),
             }
         }
+        Plan::RkyvNested => {
+            // the value inside containers: a tuple (shifts it off the start of the buffer, behind alignment padding)
+            // and an array (stride = size)
+            let z: T = {
+                let zb: Vec<T::E> = (0..T::N).map(|_| T::E::from_bits64(0)).collect();
+                T::from_elems(&zb)
+            };
+            match rkyv::to_bytes::<rkyv::rancor::Error>(&(7u8, x, 9u8)) {
+                Ok(b) => match rkyv::access::<rkyv::tuple::ArchivedTuple3<u8, T, u8>, rkyv::rancor::Error>(&b) {
+                    Ok(a) => {
+                        if a.0 != 7 || a.2 != 9 || model_bits(&a.1) != bits {
+                            out.fail(format!("image-nested:{name}"), format!("(7u8, value, 9u8) archived and accessed gives ({}, {}, {})", a.0, render_bits(T::E::KIND, &model_bits(&a.1)), a.2));
+                        }
+                    }
+                    Err(e) => out.fail(format!("rkyv-error:{name}"), format!("access of an archived (u8, {name}, u8) failed: {e}")),
+                },
+                Err(e) => out.fail(format!("rkyv-error:{name}"), format!("to_bytes of (u8, {name}, u8) failed: {e}")),
+            }
+            match rkyv::to_bytes::<rkyv::rancor::Error>(&[x, z, x]) {
+                Ok(b) => match rkyv::access::<[T; 3], rkyv::rancor::Error>(&b) {
+                    Ok(a) => {
+                        if model_bits(&a[0]) != bits || model_bits(&a[2]) != bits || model_bits(&a[1]).iter().any(|w| *w != 0) {
+                            out.fail(format!("image-nested:{name}"), "[value, zero, value] archived and accessed does not give the same three values".to_string());
+                        }
+                        if b.len() != 3 * size {
+                            out.fail(format!("image-nested:{name}"), format!("archive of [{name}; 3] is {} bytes, 3 x size_of is {}", b.len(), 3 * size));
+                        }
+                    }
+                    Err(e) => out.fail(format!("rkyv-error:{name}"), format!("access of an archived [{name}; 3] failed: {e}")),
+                },
+                Err(e) => out.fail(format!("rkyv-error:{name}"), format!("to_bytes of [{name}; 3] failed: {e}")),
+            }
+        }
         Plan::RkyvTrunc { n } => {
             let n = (*n).min(bytes.len());
             out.fault_reached = n < bytes.len();
@@ -1120,6 +1156,7 @@ pub fn plans(e: &Entry19) -> Vec<Plan> {
     }
     if e.rkyv.is_some() {
         p.push(Plan::RkyvImage);
+        p.push(Plan::RkyvNested);
         for bit in 0..e.size * 8 {
             p.push(Plan::RkyvBitflip { bit });
         }
@@ -1136,7 +1173,7 @@ pub fn plans(e: &Entry19) -> Vec<Plan> {
 fn run_plan(e: &Entry19, plan: &Plan, v: &Val) -> CaseOut {
     let f = match plan {
         Plan::PodProbe | Plan::PodImage | Plan::PodZeroed | Plan::PodBitflip { .. } => e.bytes,
-        Plan::RkyvImage | Plan::RkyvBitflip { .. } | Plan::RkyvTrunc { .. } => e.rkyv,
+        Plan::RkyvImage | Plan::RkyvBitflip { .. } | Plan::RkyvTrunc { .. } | Plan::RkyvNested => e.rkyv,
         Plan::Mint => e.mint,
         _ => e.serde,
     };
